@@ -62,12 +62,6 @@ pub enum Ev {
     ZeroCap,
 }
 
-impl Ev {
-    pub fn is_fault(self) -> bool {
-        matches!(self, Ev::Intr | Ev::Err(_) | Ev::Zero)
-    }
-}
-
 #[derive(Debug)]
 pub struct Tape {
     steps: Vec<Step>,
@@ -89,11 +83,6 @@ impl Tape {
             calls: 0,
             limit,
         }
-    }
-
-    /// Steps of the script that have not been reached.
-    pub fn unreached(&self) -> usize {
-        self.steps.len() - self.at
     }
 
     /// One call. `room`: capacity (read) or length (write) of the request;
